@@ -212,13 +212,15 @@ func c11Grid(c *core.Ctx, id string, m mon.Mode, q int, closer, argName string, 
 		}
 		recs, _ := mon.ParseWire(o.Data)
 		for _, r := range recs {
-			if !r.Tiny {
-				st := "accepted by the transport"
-				if o.Rejected {
-					st = "attempted on the closed transport"
-				}
-				sent[[2]int{r.W, r.Seq}] = st
+			if r.Tiny {
+				continue
 			}
+			if o.Rejected {
+				// handed to a transport that is closed and refused it: nothing was transmitted
+				c.Count("attempts_refused_by_closed_transport", 1)
+				continue
+			}
+			sent[[2]int{r.W, r.Seq}] = "accepted by the transport"
 		}
 	}
 	for _, cl := range calls {
@@ -276,7 +278,7 @@ func c11Concurrent(c *core.Ctx, id string, m mon.Mode, q int, argName string, ar
 		go func(w int) {
 			defer wg.Done()
 			after := 0
-			for seq := 0; seq < 4000 && after < 14; seq++ {
+			for seq := 0; seq < 4000 && after < 40; seq++ {
 				e := (seq + w) % len(c11Entries)
 				buf := mon.Payload(w, seq, 16+(seq%3)*500)
 				cl := call{w: w, seq: seq, entry: e}
@@ -314,10 +316,25 @@ func c11Concurrent(c *core.Ctx, id string, m mon.Mode, q int, argName string, ar
 		c.Inconclusive(id, "watchdog: actions outstanding")
 		return
 	}
+	// The user's Close call may have lost the election to a Close issued by the
+	// framework (e.g. the tail closing on an exception) that was still waiting:
+	// calls are judged only if they began after the user's Close returned AND
+	// the inactive event of the effective Close had been delivered.
+	_, inact := rig.Tail.Snapshot()
+	if len(inact) == 0 {
+		c.Inconclusive(id, "inactive event not observed")
+		return
+	}
+	if it := rig.Tail.FirstInactiveTick(); it > closeRetTick {
+		closeRetTick = it
+	}
 	ops, _ := rig.T.Snapshot()
 	sent := map[[2]int]bool{}
 	for _, o := range ops {
 		if o.Kind != mon.OpWrite && o.Kind != mon.OpWritev {
+			continue
+		}
+		if o.Rejected {
 			continue
 		}
 		recs, _ := mon.ParseWire(o.Data)
